@@ -97,15 +97,11 @@ Theorem C14_fold_misses_fault : exists w a b v,
 Proof. exact Fold.fold_misses_fault. Qed.
 Print Assumptions C14_fold_misses_fault.
 
-Theorem C14_fold_byte_cast_refuted : exists w e v r,
-  1 <= w /\ cfold e = FVal v /\ crt w e = RVal r /\ r <> wrap w v.
-Proof. exact Fold.fold_byte_cast_refuted. Qed.
-Print Assumptions C14_fold_byte_cast_refuted.
-
-Theorem C14_fold_byte_int_roundtrip_refuted : exists w e v r,
-  1 <= w /\ cfold e = FVal v /\ crt w e = RVal r /\ r <> wrap w v.
-Proof. exact Fold.fold_byte_int_roundtrip_refuted. Qed.
-Print Assumptions C14_fold_byte_int_roundtrip_refuted.
+(* The folded byte cast keeps the low byte: it agrees with the run-time cast for every value and word size. *)
+Theorem C14_fold_byte_cast_agrees : forall w a, 1 <= w ->
+  rt_int_to_byte (wrap w a) = fold_int_to_byte a.
+Proof. exact Fold.fold_byte_cast_agrees. Qed.
+Print Assumptions C14_fold_byte_cast_agrees.
 
 Theorem C14_full_statement_refuted : ~ C14_full_statement.
 Proof. exact Fold.C14_full_statement_refuted. Qed.
